@@ -135,14 +135,14 @@ theorem parseAssignment_rt (fuel : Nat) (a : Assignment) (hw : WF a.value) (hf :
   | true =>
     simp only [printAssignment, printExport, if_true, tColonEquals, tEol, List.cons_append, List.nil_append, List.append_assoc,
       List.singleton_append]
-    simp only [parseAssignment, he]
+    simp only [parseAssignment, he, expectEol_eol]
   | false =>
     simp only [printAssignment, printExport, Bool.false_eq_true, if_false, tColonEquals, tEol, List.cons_append, List.nil_append,
       List.append_assoc, List.singleton_append]
     have hno : ∀ n r, Tk.ident name :: Tk.other "ColonEquals" :: (printE value ++ Tk.other "Eol" :: rest)
         ≠ Tk.ident "export" :: Tk.ident n :: Tk.other "ColonEquals" :: r := by
       intro n r h; simp at h
-    simp only [parseAssignment, he]
+    simp only [parseAssignment, he, expectEol_eol]
 
 theorem parsePath_rt (ps : List String) (rest : List Tk) (hrest : ∀ p r, rest ≠ Tk.other "ColonColon" :: Tk.ident p :: r)
     (f : Nat) (hf : ps.length < f) : parsePath f (printPath ps ++ rest) = some (ps, rest) := by
@@ -161,6 +161,6 @@ theorem parseAlias_rt (fuel : Nat) (a : Alias) (hf : a.path.length < fuel) (rest
   obtain ⟨name, target, path⟩ := a
   have hp := parsePath_rt path (Tk.other "Eol" :: rest) (fun p r h => by simp at h) fuel hf
   simp only [printAlias, tColonEquals, tEol, List.cons_append, List.nil_append, List.append_assoc, List.singleton_append]
-  simp only [parseAlias, hp]
+  simp only [parseAlias, hp, expectEol_eol]
 
 end Just.Items
